@@ -18,6 +18,8 @@ import (
 	"path/filepath"
 	"runtime/debug"
 	"strings"
+
+	"github.com/superfly/ltx"
 	"testing"
 	"testing/synctest"
 	"time"
@@ -79,6 +81,7 @@ type env struct {
 	res  *Result
 	base string
 	ref  map[pos]*oracle.Image
+	svc  *lab.BackupSvc
 }
 
 func (e *env) viol(key, format string, args ...any) {
@@ -291,7 +294,17 @@ func (e *env) single(t *testing.T, wal bool, prep func(n *lab.Node, a *pager.Con
 	op func(n *lab.Node, col *collector, a *pager.Conn, img *oracle.Image) (*oracle.Image, error)) {
 	live := filepath.Join(e.base, "live")
 	col := &collector{live: live, base: e.base}
-	n, err := lab.StartPrimary(live, lab.NodeConfig{WrapOS: col.wrapOS})
+	ncfg := lab.NodeConfig{WrapOS: col.wrapOS}
+	if strings.HasPrefix(e.c.H, "H15") {
+		e.svc = lab.NewBackupSvc(filepath.Join(e.base, "svc"))
+		bc := litefs.NewFileBackupClient(e.svc.Dir)
+		if err := bc.Open(); err != nil {
+			e.res.Harness = err.Error()
+			return
+		}
+		ncfg.BackupClient = &lab.FaultClient{Inner: bc}
+	}
+	n, err := lab.StartPrimary(live, ncfg)
 	if err != nil {
 		e.res.Harness = err.Error()
 		return
@@ -599,6 +612,33 @@ func run1(t *testing.T, c Case) (res Result) {
 				}
 				return want, err
 			})
+		case "H15-restore-from-backup":
+			// The backup service is one transaction ahead of the primary: a sync makes the primary adopt the service's snapshot over its own database and log.
+			var want *oracle.Image
+			e.single(t, c.Variant%2 == 1, func(n *lab.Node, a *pager.Conn, img *oracle.Image) *oracle.Image {
+				if err := n.Store.SyncBackup(context.Background()); err != nil {
+					e.res.Harness = "first sync: " + err.Error()
+					return nil
+				}
+				ch := e.svc.Chain("db")
+				if len(ch.Errors) > 0 || ch.Pos() != n.DB("db").Pos() {
+					e.res.Harness = fmt.Sprintf("service not at the primary's position after the first sync: %v %s", ch.Errors, ch.Pos())
+					return nil
+				}
+				pos := ch.Pos()
+				want = ch.Image().Clone()
+				want.Pages[1] = pager.MakePage(want.PageSize, 2, 0x777)
+				data := lab.EncodeLTX(ltx.Header{Version: 1, PageSize: uint32(want.PageSize), Commit: want.N(), MinTXID: pos.TXID + 1, MaxTXID: pos.TXID + 1, Timestamp: 3, PreApplyChecksum: pos.PostApplyChecksum, NodeID: 0xA4EAD},
+					map[uint32][]byte{2: want.Pages[1]}, want.Checksum())
+				if err := e.svc.Put("db", pos.TXID+1, pos.TXID+1, data); err != nil {
+					e.res.Harness = err.Error()
+					return nil
+				}
+				return img
+			}, func(n *lab.Node, col *collector, a *pager.Conn, img *oracle.Image) (*oracle.Image, error) {
+				a.Close()
+				return want, n.Store.SyncBackup(context.Background())
+			})
 		case "H10-replica-incremental":
 			shapes := []pager.RTx{
 				{Mods: []uint32{2}, NewSize: s + 2, Final: "DELETE", Outcome: "commit"},
@@ -628,6 +668,39 @@ func run1(t *testing.T, c Case) (res Result) {
 			e.replica(t, c.Variant%2 == 1, false, func(cl *lab.Cluster, P *lab.Node, a *pager.Conn, img *oracle.Image) (*oracle.Image, error) {
 				return img, nil
 			}, true)
+		case "H11b-replica-resnapshot":
+			// A populated replica falls behind a trimmed log (or, variant 2/3, forks) and is sent a snapshot over its existing database and log.
+			e.replica(t, c.Variant%2 == 1, false, func(cl *lab.Cluster, P *lab.Node, a *pager.Conn, img *oracle.Image) (*oracle.Image, error) {
+				cl.Net.Block("P", "R1")
+				cur := img
+				for i := 0; i < 2; i++ {
+					if c.Variant%2 == 1 {
+						r := a.RunWTx(pager.WTx{Frames: []uint32{2}, Outcome: "commit"}, cur)
+						if r.Err != nil || !r.Committed {
+							return nil, fmt.Errorf("%v at %s", r.Err, r.ErrStep)
+						}
+						cur = r.Intended
+					} else {
+						r := a.RunRTx(pager.RTx{Mods: []uint32{2}, NewSize: s + uint32(i) + 1, Final: "DELETE", Outcome: "commit"}, cur)
+						if r.Err != nil || !r.Committed {
+							return nil, fmt.Errorf("%v at %s", r.Err, r.ErrStep)
+						}
+						cur = r.Intended
+					}
+				}
+				db := P.DB("db")
+				ents, _ := os.ReadDir(db.LTXDir())
+				old := time.Now().Add(-24 * time.Hour)
+				for _, ent := range ents {
+					_ = os.Chtimes(filepath.Join(db.LTXDir(), ent.Name()), old, old)
+				}
+				P.Store.Retention = time.Minute
+				if err := P.Store.EnforceRetention(context.Background()); err != nil {
+					return nil, err
+				}
+				cl.Net.Unblock("P", "R1")
+				return cur, nil
+			}, false)
 		case "H13-replica-tombstone":
 			e.replica(t, c.Variant%2 == 1, false, func(cl *lab.Cluster, P *lab.Node, a *pager.Conn, img *oracle.Image) (*oracle.Image, error) {
 				a.Close()
@@ -660,7 +733,7 @@ func TestCheck(t *testing.T) {
 	}{
 		{"H1-first-tx", 6}, {"H2-grow", 3}, {"H3-shrink", 3}, {"H4-multi-segment", 3}, {"H5-rollback-after-spill", 3},
 		{"H6-wal-fresh", 3}, {"H7-wal-after-restart", 2}, {"H7b-wal-second-tx", 2}, {"H8-sqlite-checkpoint", 4}, {"H9-litefs-recover", 2},
-		{"H12-drop", 2}, {"H14-import", 4}, {"H10-replica-incremental", 2}, {"H10w-replica-incremental-wal", 2}, {"H11-replica-snapshot", 2}, {"H13-replica-tombstone", 2},
+		{"H12-drop", 2}, {"H14-import", 4}, {"H10-replica-incremental", 2}, {"H10w-replica-incremental-wal", 2}, {"H11-replica-snapshot", 2}, {"H11b-replica-resnapshot", 2}, {"H15-restore-from-backup", 2}, {"H13-replica-tombstone", 2},
 	}
 	type geo struct {
 		ps    int
